@@ -129,13 +129,31 @@ def link_closure(ctx, cfg, cb, info, role, rule):
         # allowed only when the elements read need no drop, and the source array's drop is suppressed
         needs = [f for f in g["facts"] if f[0] == "b" and f[1][0] == "needs_drop"]
         from .tys import tstr
-        ok = bool(needs) and all(f[2] is False for f in needs)
         # every slice iterated must be over a ManuallyDrop local
         md_ok = all(b[0] == "local" and tstr(ap.local_ty(b[1])).startswith("core::mem::ManuallyDrop<") for b in slice_bases) and bool(slice_bases)
-        # number of element types proven drop-free must cover the slices read
-        ctx.ob(rule, cb["key"] + "#nodrop", ok and md_ok and len(needs) >= len(info["slots"]),
-               "closure reads elements without position tracking; constructed under %s (required: needs_drop == false for each of the %d element types read); sources are ManuallyDrop locals: %s" % (
-                   fstr(g["facts"]), len(info["slots"]), md_ok), at=parent["at"], cfg=cfg)
+        # the element type of EACH array read this way must be proven drop-free on this path (a fact about some other type does not count)
+        elems = [elem_of_storage(ap.local_ty(b[1])) for b in slice_bases if b[0] == "local"]
+        missing = [tstr(e) if e is not None else "?" for e in elems if e is None or not any(f[2] is False and f[1][1] == tstr(e) for f in needs)]
+        ok = bool(elems) and not missing and len(elems) >= len(info["slots"])
+        ctx.ob(rule, cb["key"] + "#nodrop", ok and md_ok,
+               "closure reads elements without position tracking; constructed under %s; required: needs_drop == false for the element type of each array read (%s) - missing for: %s; sources are ManuallyDrop locals: %s" % (
+                   fstr(g["facts"]), [tstr(e) if e is not None else "?" for e in elems], missing or "none", md_ok), at=parent["at"], cfg=cfg)
+
+
+def elem_of_storage(t, depth=0):
+    """Element type of an array storage type: X for GenericArray<X, N> under ManuallyDrop / MaybeUninit / reference layers."""
+    from .tys import adt_args
+    while t is not None and depth < 6:
+        depth += 1
+        if t.get("k") in ("ref", "ptr"):
+            t = t.get("t")
+        elif t.get("k") == "adt" and t["def"] in ("core::mem::ManuallyDrop", "core::mem::MaybeUninit"):
+            t = adt_args(t)[0]
+        elif t.get("k") == "adt" and t["def"] == "GenericArray":
+            return adt_args(t)[0]
+        else:
+            return None
+    return None
 
 
 def raw_write_discipline(ctx, cfg, body, rule):
